@@ -33,7 +33,7 @@ Ctx(v) ==
   IN [feats |-> feats,
       M |-> TLCEval([q \in 1..n |-> FormOf(v, feats, v.qs[q])]),
       S |-> TLCEval([q \in 1..n |-> FormOf(v, feats, SamQ(v.R, v.qs[q]))])]
-Form(c, r) == IF r.cmd = "variants" THEN c.M ELSE c.S
+Form(c, r) == IF r.cmd \in {"variants", "variants-annoref"} THEN c.M ELSE c.S
 
 Muts(row) == row.muts
 OfType(ms, T) == SelectSeq(ms, LAMBDA m : m.t \in T)
@@ -146,7 +146,7 @@ FailedRun(v, c, k, o) ==
   ELSE
      (IF ro.err # "" \/ ro.header # "query,mutations" THEN {IF IsGff(r.anno) THEN "C14-gff-rejected" ELSE "C04-error"}
       ELSE
-        (IF r.cmd = "variants"
+        (IF r.cmd \in {"variants", "variants-annoref"}
          THEN (IF Len(ro.rows) = Len(v.qs) /\ \A i \in 1..Len(ro.rows) : ro.rows[i].qi = i - 1 THEN {} ELSE {"C04-row-per-query"})
          ELSE (IF Len(ro.rows) = o.nsam /\ \A i \in 1..(Len(ro.rows) - 1) : ro.rows[i].qi < ro.rows[i + 1].qi THEN {} ELSE {"C04-row-per-query"}))
         \cup (IF \A i \in 1..Len(ro.rows) : ro.rows[i].qi \in 0..(Len(v.qs) - 1) => NoJunk(ro.rows[i].muts) /\ IndelsOK(Form(c, r)[ro.rows[i].qi + 1], ro.rows[i].muts) THEN {} ELSE {"C05-indels"})
@@ -167,6 +167,10 @@ FailedRun(v, c, k, o) ==
            ELSE {})
      \cup (IF r.cmd = "samvar" /\ Gapless(v.R)
            THEN LET g == FindRun(v, LAMBDA x : x.cmd = "variants" /\ SameRun(x, r, FALSE, TRUE) /\ ~x.stdin) IN
+                IF g # {} /\ ~SubsetListsOK(c, ro, o.runs[CHOOSE x \in g : TRUE]) THEN {"C11-sam-vs-msa"} ELSE {}
+           ELSE {})
+     \cup (IF r.cmd = "samvar-annoref" /\ Gapless(v.R)     \* both take the reference from the annotation: a query may then carry any name, the SAM reference's included
+           THEN LET g == FindRun(v, LAMBDA x : x.cmd = "variants-annoref" /\ SameRun(x, r, FALSE, TRUE)) IN
                 IF g # {} /\ ~SubsetListsOK(c, ro, o.runs[CHOOSE x \in g : TRUE]) THEN {"C11-sam-vs-msa"} ELSE {}
            ELSE {})
      \cup (IF r.cmd = "samvar-annoref"
